@@ -650,6 +650,7 @@ def query (x : Ctx) (q : String) : Q String := do
       | "take" => .inl (l.take arg)
       | "nthnext" => .inl (l.drop (arg + 1))
       | "count" => .inr l.length
+      | "hint" => .inr 1
       | _ => .inl []
     match kind with
     | "windows" => do
